@@ -1,7 +1,7 @@
 -------------------------------- MODULE MCWs --------------------------------
 (***************************************************************************)
 (* Bounded-exhaustive generator for C18 (remove_insignificant_whitespace): *)
-(* all documents  doc / r[xml:space=sr] / a[xml:space=sa] / K  with sr, sa *)
+(* all documents doc / d / r[xml:space=sr] / a[xml:space=sa] / K, sr, sa   *)
 (* over {absent, preserve, default, other} and K over all child sequences  *)
 (* of length <= 3 of {element, "x", " ", TAB LF, NBSP, comment} - text in  *)
 (* every sibling arrangement (adjacent text nodes included: consolidation  *)
@@ -26,18 +26,25 @@ KidNode(x) ==
       [] OTHER -> Nd("comm", 0, <<>>, "", "", <<107>>)
 RECURSIVE AddKids(_, _, _, _)
 AddKids(N, parent, ks, j) == IF j > Len(ks) THEN N ELSE AddKids(Add(N, parent, KidNode(ks[j])), parent, ks, j + 1)
-Mk(sr, sa, K) ==
+Mk(sr, sa, K, tail) ==
+    \* doc / d / r[xml:space=sr] / a[xml:space=sa] / K, and behind r (inside d, which has no xml:space of its own) the tail
     LET N0 == <<Nd("doc", 0, <<>>, "", "", <<>>)>>
-        N1 == Add(N0, 1, Nd("elem", 0, <<>>, "", "r", <<>>))
-        N2 == IF sr = "-" THEN N1 ELSE Add(N1, 2, Nd("attr", 0, <<>>, XmlNs, "space", SpaceVal(sr)))
+        Nd0 == Add(N0, 1, Nd("elem", 0, <<>>, "", "d", <<>>))
+        N1 == Add(Nd0, 2, Nd("elem", 0, <<>>, "", "r", <<>>))
+        N2 == IF sr = "-" THEN N1 ELSE Add(N1, 3, Nd("attr", 0, <<>>, XmlNs, "space", SpaceVal(sr)))
         a == Len(N2) + 1
-        N3 == Add(N2, 2, Nd("elem", 0, <<>>, "", "a", <<>>))
+        N3 == Add(N2, 3, Nd("elem", 0, <<>>, "", "a", <<>>))
         N4 == IF sa = "-" THEN N3 ELSE Add(N3, a, Nd("attr", 0, <<>>, XmlNs, "space", SpaceVal(sa)))
-    IN AddKids(N4, a, K, 1)
+        N5 == AddKids(N4, a, K, 1)
+        \* what follows after r has closed: nothing, white space, or white space and an element holding white space -
+        \* the xml:space of r and a must not reach it
+        N6 == IF tail = "-" THEN N5 ELSE Add(N5, 2, Nd("text", 0, <<>>, "", "", <<32>>))
+    IN IF tail # "wc" THEN N6
+       ELSE LET c == Len(N6) + 1 IN Add(Add(N6, 2, Nd("elem", 0, <<>>, "", "c", <<>>)), c, Nd("text", 0, <<>>, "", "", <<10>>))
 VARIABLE F
 \* consolidation off, or switched on again after the (possibly adjacent) text nodes were put in place
-Init == \E sr \in {"-", "preserve", "default", "other"}, sa \in {"-", "preserve", "default", "other"}, K \in KidSeqs, cons \in BOOLEAN :
-            F = [n |-> Mk(sr, sa, K), cons |-> cons, eo |-> TRUE]
+Init == \E sr \in {"-", "preserve", "default", "other"}, sa \in {"-", "preserve", "default", "other"}, K \in KidSeqs, cons \in BOOLEAN, tail \in {"-", "w", "wc"} :
+            F = [n |-> Mk(sr, sa, K, tail), cons |-> cons, eo |-> TRUE]
 Next == UNCHANGED F
 Spec == Init /\ [][Next]_F
 ValidInput == StructValidCore(F.n)
